@@ -3,6 +3,10 @@
 import json, subprocess
 
 CHECKS = {
+ "C06": dict(level="exploration", design="§3 C06",
+   technique="exhaustive enumeration of small clusters (node kinds x loads x policies x feature gate) through the real disruption controller; accepted commands judged by the admission oracle and an independent price oracle",
+   text="Clusters are multisets of 1-3 nodes over (instance type, zone, capacity type) kinds of catalogs K1/K2 and a 17-step spot price ladder x nine per-node loads (empty, small/medium/large, zone / capacity-type selectors, zero-eviction-cost pod, daemon only, a pod no other node can host) x policy {WhenEmptyOrUnderutilized, Balanced} x SpotToSpot gate {off,on} plus minValues variants. The real disruption controller runs Emptiness, MultiNode and SingleNode consolidation for two rounds; every accepted command is judged: each reschedulable pod of the removed nodes has a home on a remaining initialized non-candidate node or on the single replacement and passes the C01 admission oracle there; every instance type listed by the replacement NodeClaim created in the API has a worst-case launch price (reserved > spot > on-demand, from the harness catalog) strictly below the combined candidate price; no on-demand fallback at or above it when a candidate is on-demand; spot-to-spot only with the gate on and, single-node, with >=15 options truncated to 15; nodes deleted as empty host no reschedulable pod with positive eviction cost.",
+   note="Only accepted commands are judged (every candidate subset the search visits is visited by the real code). Prices and allocatables come from the harness's own catalog description."),
  "C18": dict(level="exploration", design="§3 C18",
    technique="exhaustive enumeration of candidate subsets x repetition counts x context states of the real disruption.SimulateScheduling, with before/after digests of API, cluster cache and provider catalog",
    text="Four disruption worlds (mixed nodes with host-port / deletion-cost pods and pending pods on a catalog that is deliberately not in price order; deleting + uninitialized nodes; reserved offerings with the gate on; two pools with PDB / do-not-disrupt pods) x every subset of size <=3 of the candidates returned by the real GetCandidates x 1..2 (quick) / 1..3 (thorough) consecutive SimulateScheduling calls x {normal, already-cancelled, 1 ns deadline} contexts, plus one Provisioner.Schedule pass per world. The digest of all API objects (incl. resourceVersions), of the cluster cache through exported accessors (usage, host-port / volume-limit probes, deletion marks, nominations, pod bookkeeping, consolidation state) and of the provider catalog INCLUDING slice order, availability and reservation counts must be identical before and after, and the call log must contain no write. For the provisioning pass only nominations may differ.",
